@@ -11,6 +11,7 @@
 (*       size()                                                            *)
 (*  emp  new_in_place(content) into L bytes at addr: ok, error kind, the   *)
 (*       resulting bytes, size()                                           *)
+(*  dflt default_in_place into L bytes at addr: ok, error kind, bytes, size *)
 (*  op   an operation at a path of a mapped value: pre bytes, operation,   *)
 (*       result, post bytes, size()                                        *)
 (*                                                                         *)
@@ -33,21 +34,63 @@ MaskOk(mask, pre, post) ==
   /\ \A k \in 1..Len(mask) : /\ (mask[k] = SAME => post[k] = pre[k])
                              /\ (mask[k] >= 0 => post[k] = mask[k])
 
-DecOk(e) ==
-  LET t == TypeOf(e.id)  r == Validate(t, e.bs, e.addr) IN
-  /\ r.ok = e.ok
-  /\ (r.ok => SameContent(r.val, e.read, t) /\ Size(r.val, t) = e.size /\ LenLeCap(r.val, t))
+(***************************************************************************)
+(* Projection.  The same trace is judged under one property at a time     *)
+(* (environment variable PROP, set by the check that runs the validation): *)
+(* every conjunct below belongs to the properties named in its guard, and  *)
+(* a check rejects a trace only for a deviation that its own property      *)
+(* forbids -- a change that breaks C18 is not reported by C14's check.     *)
+(* Without PROP every conjunct applies.                                    *)
+(***************************************************************************)
+Prop == IF "PROP" \in DOMAIN IOEnv THEN IOEnv.PROP ELSE "ALL"
+On(ps) == Prop = "ALL" \/ Prop \in ps
 
-EmpOk(e) ==
-  LET t == TypeOf(e.id)
-      b == IF e.addr % Align(t) = 0 THEN Build(e.content, t, e.L) ELSE BFail("align") IN
-  IF e.addr % Align(t) # 0 THEN ~e.ok /\ (e.L >= MinSize(t) => e.kind = "BadAlign")
-  ELSE IF b.ok THEN /\ e.ok
-                    /\ LET r == Validate(t, e.post, 0) IN r.ok /\ SameTree(r.val, b.tree, t) /\ e.size = Size(b.tree, t)
-                    /\ MaskOk(Enc(b.tree, t, e.L), e.post, e.post)
-  ELSE IF e.L >= MinSize(t) /\ Build(e.content, t, e.L + Align(t) - 1).ok
-         THEN (e.ok => LET r == Validate(t, e.post, 0) IN r.ok /\ e.size <= e.L)        \* thin zone: either, but consistent
-  ELSE ~e.ok /\ e.kind = "InsufficientSize"
+DecOk(e) ==
+  LET t == TypeOf(e.id)  r == Validate(t, e.bs, e.addr)
+      both == r.ok /\ e.ok
+      \* what the bytes are relative to a valid message m (the first base bytes of the image they were derived from)
+      aligned == e.addr % Align(t) = 0
+      prefix == aligned /\ e.mode = 2 /\ Len(e.bs) < e.base                 \* a proper prefix of m
+      extension == aligned /\ e.mode \in {2, 3} /\ Len(e.bs) >= e.base /\ e.base > 0   \* m followed by further bytes
+  IN
+  \* C02: accepted exactly when well formed; the view is consistent and its content is the reference decoding
+  /\ On({"C02"}) => /\ r.ok = e.ok
+                     /\ (both => SameContent(r.val, e.read, t) /\ LenLeCap(r.val, t))
+                     /\ (e.ok => e.inconsistent = 0)
+  \* C01: (panics are separate events) nothing reachable lies outside the slice
+  /\ On({"C01"}) => (e.ok => e.inconsistent = 0)
+  \* C05: the extent of an accepted value
+  /\ On({"C05"}) => (both => Size(r.val, t) = e.size /\ e.size <= Len(e.bs))
+  \* C06: a proper prefix is "incomplete" (or the same content when only padding is missing), never another message
+  \*      and never a content error; an extension is the same message
+  /\ On({"C06"}) => /\ (prefix => IF e.ok THEN r.ok /\ SameContent(r.val, e.read, t) ELSE e.kind = "InsufficientSize")
+                     /\ (extension => r.ok = e.ok /\ (both => SameContent(r.val, e.read, t) /\ Size(r.val, t) = e.size))
+
+EmpJudge(e, t, content) ==
+  LET b == IF e.addr % Align(t) = 0 THEN Build(content, t, e.L) ELSE BFail("align")
+      good == /\ LET r == Validate(t, e.post, 0) IN r.ok /\ SameTree(r.val, b.tree, t) /\ e.size = Size(b.tree, t)
+              /\ MaskOk(Enc(b.tree, t, e.L), e.post, e.post)
+  IN
+  \* C03 / C20: where the content fits and the call succeeds, the value reads back, validates and has the reference image
+  /\ On({"C03", "C20"}) => ((e.addr % Align(t) = 0 /\ b.ok /\ e.ok) => good)
+  \* C15: acceptance and error kinds (three-valued in the thin zone), and an accepted emplacement satisfies C03
+  /\ On({"C15"}) =>
+       IF e.addr % Align(t) # 0 THEN ~e.ok /\ (e.L >= MinSize(t) => e.kind = "BadAlign")
+       ELSE IF b.ok THEN e.ok /\ good
+       ELSE IF e.L >= MinSize(t) /\ Build(content, t, e.L + Align(t) - 1).ok
+              THEN (e.ok => LET r == Validate(t, e.post, 0) IN r.ok /\ e.size <= e.L)        \* thin zone: either, but consistent
+       ELSE ~e.ok /\ e.kind = "InsufficientSize"
+
+EmpOk(e) == EmpJudge(e, TypeOf(e.id), e.content)
+\* default_in_place: the documented default state, whatever the buffer held before
+DfltOk(e) == LET t == TypeOf(e.id) IN
+  /\ EmpJudge(e, t, DefaultContent(t))
+  /\ On({"C20"}) => ((e.ok /\ e.addr % Align(t) = 0 /\ t.k # "enum") => e.size = MinSize(t))
+
+\* SAME outside the byte range (off, off + len] of the node an operation addresses, anything inside
+RegionMask(n, off, len) == [k \in 1..n |-> IF k <= off \/ k > off + len THEN SAME ELSE ANY]
+
+PushLike(o) == o.op \in {"push", "push_slice", "push_str", "push_default"}
 
 OpOk(e) ==
   LET t == TypeOf(e.id)
@@ -56,17 +99,31 @@ OpOk(e) ==
   IN /\ d.ok
      /\ LET a == Apply(d.val, t, Len(e.pre), path1, e.op)
             d2 == Validate(t, e.post, 0)
-        IN /\ a.ok = e.ok
-           /\ d2.ok
-           /\ (~a.anyvalid => /\ SameTree(d2.val, a.tree, t)
-                              /\ e.size = Size(a.tree, t)
-                              /\ MaskOk(Mask(a.tree, t, Len(e.pre), a.off, a.len), e.pre, e.post))
+            nk == Get(d.val, t, Len(e.pre), path1, 0).t.k
+            viaflex == \E j \in 0..(Len(path1) - 1) : Get(d.val, t, Len(e.pre), SubSeq(path1, 1, j), 0).t.k = "flex"
+            same == d2.ok /\ SameTree(d2.val, a.tree, t)
+        IN
+        \* C11 / C12: result, validity and state of the container the operation addresses (or of the FlexVec it lives in)
+        /\ On({"C11"}) => (nk \in {"vec", "str"} =>
+               a.ok = e.ok /\ d2.ok /\ (~a.anyvalid => same /\ e.size = Size(a.tree, t)))
+        /\ On({"C12"}) => ((nk = "flex" \/ viaflex) =>
+               a.ok = e.ok /\ d2.ok /\ (~a.anyvalid => same))
+        \* C13: a push the implementation refuses leaves the state as it was
+        /\ On({"C13"}) => ((nk \in {"vec", "str", "flex"} /\ PushLike(e.op) /\ ~e.ok) =>
+               d2.ok /\ SameTree(d2.val, d.val, t) /\ e.size = Size(d.val, t))
+        \* C14: nothing outside the node being changed changes; inside it the determined bytes are the reference's
+        /\ On({"C14"}) => /\ Len(e.post) = Len(e.pre)
+                           /\ MaskOk(RegionMask(Len(e.pre), a.off, a.len), e.pre, e.post)
+                           /\ ((~a.anyvalid /\ a.ok = e.ok) => MaskOk(Mask(a.tree, t, Len(e.pre), a.off, a.len), e.pre, e.post))
+        \* C18: an assignment the implementation refuses leaves a valid value
+        /\ On({"C18"}) => ((e.op.op = "assign" /\ ~e.ok) => d2.ok)
 
 Next ==
   /\ i <= Len(Recs)
   /\ LET e == Recs[i] IN
        CASE e.ev = "dec" -> DecOk(e)
          [] e.ev = "emp" -> EmpOk(e)
+         [] e.ev = "dflt" -> DfltOk(e)
          [] e.ev = "op"  -> OpOk(e)
          [] OTHER -> FALSE
   /\ i' = i + 1
